@@ -1,5 +1,6 @@
 import RR.Model.RingDriver
 import RR.Model.WaitDriver
+import RR.Model.FileSinkDriver
 import RR.Model.HdlcDriver
 import RR.Model.BlockDriver
 import RR.Model.SchedDriver
@@ -19,6 +20,7 @@ def dispatch (line : String) : String :=
   | "blk" :: rest => BlockDriver.handle (" ".intercalate rest) BlockDriver.registry
   | "repeat" :: rest => BlockDriver.handleRepeat (" ".intercalate rest)
   | "hdlc" :: rest => HdlcDriver.handle (" ".intercalate rest)
+  | "fsink" :: rest => FileSinkDriver.handle (" ".intercalate rest)
   | "wait" :: rest => WaitDriver.handle (" ".intercalate rest)
   | _ => "bad-model"
 
